@@ -185,6 +185,9 @@ func (w *world) build() {
 		must(ts.Task(idE, "0000e0e0", agent.COMMAND_SLEEP, map[string]any{"Arguments": "7;1"}) == nil, "task for E")
 	}
 	if w.st == S3 {
+		// the port forward the shapes name has carried data: it holds an open connection to
+		// its target (in the other states it has none, and the target refuses the dial)
+		ts.Agent(idA).PortFwds[0].Conn = &memConn{}
 		k := keyIndex(idA)
 		open := (&demonwire.W{}).I32(agent.DEMON_COMMAND_FS_DOWNLOAD).I32(0).I32(fileOpen).I64(4096).WStr(`C:\Users\x\secret.txt`).B
 		bof := (&demonwire.W{}).I32(agent.CALLBACK_FILE).Bytes(cat(be32(fileBof), be32(0), []byte("bof.bin"))).B // announced size 0: an empty file is a file (and a divisor)
@@ -257,7 +260,9 @@ func (s *agentSave) apply() {
 	a.PortFwds = nil
 	for i := range s.PortFwds {
 		p := s.PortFwds[i]
-		p.Conn = nil
+		if p.Conn != nil {
+			p.Conn = &memConn{} // a forward that has carried data holds an open connection to its target
+		}
 		a.PortFwds = append(a.PortFwds, &p)
 	}
 	a.SocksCli = nil
